@@ -44,7 +44,7 @@ FUNCS = {
     # "point_to_ellipsoid", "line_to_circle", "line_segment_to_circle", "disk_to_disk"
 }
 OUTSIDE_FUNCS = ["point_to_ellipsoid (Newton iteration on a radical expression)",
-                 "line_to_circle, line_segment_to_circle (8-step bisection, x**(2/3))",
+                 "line_to_circle off the sub-domain 'line meets the circle axis in the given line point', line_segment_to_circle (8-step bisection, x**(2/3))",
                  "disk_to_disk (20 alternating projections, one radical each)"]
 
 # ---------------------------------------------------------------- corpus (all numbers dyadic => exact in float64)
@@ -247,3 +247,79 @@ def make_jobs(prop, tier, seed, funcs=None):
                 move = "b" if (i % 3) != 2 else "a"
                 jobs.append({"family": fn, "args": {"a": a, "b": b, "sweep": sw, "move": move}})
     return jobs
+
+
+# ---------------------------------------------------------------- line_to_circle, lines that meet the circle's axis
+# The general case of line_to_circle bisects (outside reach).  When the line passes through a point of the circle's
+# axis the function takes closed-form branches only (_case_b1_is_zero / _case_line_and_normal_parallel): that
+# sub-domain is inside reach and is claimed separately.
+def _unit(v):
+    n = sum(c * c for c in v) ** 0.5
+    return [c / n for c in v]
+
+
+AXIS_DIRS = [[0.6, 0.0, 0.8], [-0.6, 0.0, -0.8], [0.0, -5.0 / 13.0, 12.0 / 13.0], [0.0, 5.0 / 13.0, -12.0 / 13.0],
+             [0.8, 0.0, -0.6], [1.0, 0.0, 0.0], [0.0, 0.0, 1.0], [-0.8, 0.0, 0.6]]
+# three non-zero components: the optimality query needs > 60 s per path (thorough tier only, usually undecided)
+AXIS_DIRS_MORE = [[2.0 / 7.0, 3.0 / 7.0, 6.0 / 7.0], [-2.0 / 7.0, -3.0 / 7.0, -6.0 / 7.0]]
+AXIS_CIRCLES = [{"kind": "circle", "c": [0.0, 0.0, 0.0], "radius": 1.0, "n": Z},
+                {"kind": "circle", "c": [0.5, -0.25, 0.25], "radius": 0.75, "n": Z},
+                {"kind": "circle", "c": [0.0, 0.5, 0.0], "radius": 2.0, "n": X}]
+
+
+def _perm_to_normal(d, n):
+    """AXIS_DIRS are written for normal Z; for normal X rotate the components cyclically (z -> x)."""
+    return d if n == Z else [d[2], d[0], d[1]]
+
+
+class AxisLineCircle(DistScenario):
+    """line_to_circle(line through the axis point c + t*n, fixed rational direction; circle fixed), t symbolic."""
+    budget_s = 150
+    timeout_ms = 45000
+
+    def __init__(self, prop, args, mode):
+        circle = args["circle"]
+        line = {"kind": "line", "p": circle["c"], "d": _perm_to_normal(args["d"], circle["n"])}
+        sweep = {"kind": "T1", "u": circle["n"], "o": [0.0, 0.0, 0.0]}
+        DistScenario.__init__(self, prop, "line_to_circle", line, circle, sweep, mode, move="a")
+        self.args = args
+        if mode == "opt":
+            # competing point of the line: parameter aux_s (its closest circle point is eliminated in closed form)
+            self.params = self.params + [("aux_s", -8.0, 8.0)]
+
+    def unpack(self, inp, out):
+        return out[0], list(out[1]), list(out[2])
+
+    def band_assumptions(self, cx):
+        return []
+
+    def check(self, cx, inp, out, ob):
+        if self.mode == "feas":
+            return DistScenario.check(self, cx, inp, out, ob)
+        A, B = inp["A"], inp["B"]
+        d = out[0]
+        s = cx.P["aux_s"]
+        x = ADD(A.p, SCALE(s, A.d))
+        # the closest point of a circle (centre c, unit normal n, radius r) to x is at squared distance
+        # (rho - r)^2 + h^2 with h = (x-c).n and rho^2 = |x-c|^2 - h^2; hence  d^2 <= that  <=>  2 r rho <= K
+        # with K = rho^2 + r^2 + h^2 - d^2, i.e. K >= 0 and 4 r^2 rho^2 <= K^2 (no radical, no circle parameter)
+        rel = SUB(x, B.c)
+        h = DOT(rel, B.n)
+        rho2 = NORM2(rel) - h * h
+        r = B.radius
+        t = 5e-3 * self.L       # the property's tolerance for line_to_circle
+
+        def no_closer(dd):
+            K = rho2 + r * r + h * h - dd
+            return AND(K >= 0, 4.0 * r * r * rho2 <= K * K)
+        ob.require("no_closer_pair", exact=no_closer(d * d), tol=OR(d <= t, no_closer((d - t) * (d - t))))
+
+
+def axis_line_jobs(tier):
+    J = []
+    for ci, c in enumerate(AXIS_CIRCLES):
+        for di, d in enumerate(AXIS_DIRS + (AXIS_DIRS_MORE if tier != "quick" else [])):
+            if tier == "quick" and ci > 0 and (ci + di) % 2:
+                continue
+            J.append({"family": "line_to_circle:axis", "args": {"circle": c, "d": d}})
+    return J
